@@ -137,3 +137,33 @@ Definition check_conc (progs : list (list nat)) (sched : list nat) (os : list (l
   let s0 := Conc.Build_st [] 0 (map (fun p => Conc.Build_thread p false []) progs) in
   let s := Conc.run true s0 sched in
   ((if lists_eqb (map (fun t => rev (Conc.results t)) (Conc.threads s)) os then 0 else 1), conc_oracle os).
+
+(* ---- concurrent callers creating fields / tag keys of one metric: programs, schedule of micro-steps (a request is the
+   read outside the lock, then the locked part), observed results per caller in call order, what is found afterwards ---- *)
+From LinDBV.C09 Require Schema.
+Definition sreq_eqb (a b : Schema.req) : bool := Schema.kind_eqb (fst a) (fst b) && (snd a =? snd b).
+Fixpoint sres_eqb (a b : list (Schema.req * nat)) : bool :=
+  match a, b with
+  | [], [] => true
+  | (r1, v1) :: a', (r2, v2) :: b' => sreq_eqb r1 r2 && (v1 =? v2) && sres_eqb a' b'
+  | _, _ => false
+  end.
+Fixpoint sress_eqb (a b : list (list (Schema.req * nat))) : bool :=
+  match a, b with [], [] => true | x :: a', y :: b' => sres_eqb x y && sress_eqb a' b' | _, _ => false end.
+Definition sopt_eqb (a b : option nat) : bool :=
+  match a, b with Some x, Some y => x =? y | None, None => true | _, _ => false end.
+(* oracle, observations only: what a caller was given is what is found afterwards; one name one id; different names of a
+   kind different ids *)
+Definition schema_oracle (os : list (list (Schema.req * nat))) (final : list (Schema.req * option nat)) : nat :=
+  let all := concat os in
+  let found r := match find (fun x => sreq_eqb (fst x) r) final with Some x => snd x | None => None end in
+  if negb (forallb (fun p => sopt_eqb (found (fst p)) (Some (snd p))) all) then 111
+  else if negb (forallb (fun p => forallb (fun q =>
+            negb (Schema.kind_eqb (fst (fst p)) (fst (fst q))) || Bool.eqb (snd (fst p) =? snd (fst q)) (snd p =? snd q)) all) all) then 112
+  else 0.
+Definition check_schema (progs : list (list Schema.req)) (sched : list nat) (os : list (list (Schema.req * nat)))
+           (final : list (Schema.req * option nat)) : nat * nat :=
+  let s := Schema.run true (Schema.init progs) sched in
+  ((if sress_eqb (map (fun t => rev (Schema.results t)) (Schema.threads s)) os &&
+       forallb (fun x => sopt_eqb (Schema.lookup s (fst x)) (snd x)) final then 0 else 1),
+   schema_oracle os final).
